@@ -1663,8 +1663,8 @@ impl Compiler {
             }
             Derivative => {
                 let (sn, _) = self.monadic_modifier_op(modified)?;
-                self.add_span(modified.modifier.span.clone());
-                match derivative(&sn.node, &self.asm) {
+                let span = self.add_span(modified.modifier.span.clone());
+                match derivative(&sn.node, span, &self.asm) {
                     Ok(node) => node,
                     Err(e) => {
                         self.add_error(
@@ -1677,8 +1677,8 @@ impl Compiler {
             }
             Integral => {
                 let (sn, _) = self.monadic_modifier_op(modified)?;
-                self.add_span(modified.modifier.span.clone());
-                match integral(&sn.node, &self.asm) {
+                let span = self.add_span(modified.modifier.span.clone());
+                match integral(&sn.node, span, &self.asm) {
                     Ok(node) => node,
                     Err(e) => {
                         self.add_error(
